@@ -265,11 +265,17 @@ func (a *Operator) useHexEscapes(input string) string {
 func (o *Operator) dontUseFlagsForMetaCharacters(input string) string {
 	result := input
 	flagsStartRegexp := regexp.MustCompile(`\(\?[-misU]+\)`)
-	result = flagsStartRegexp.ReplaceAllLiteralString(result, "")
+	for {
+		location := findUnescaped(flagsStartRegexp, result)
+		if len(location) == 0 {
+			break
+		}
+		result = result[:location[0]] + result[location[1]:]
+	}
 
 	flagGroupStartRegexp := regexp.MustCompile(`\(\?[-misU]+:`)
 	for {
-		location := flagGroupStartRegexp.FindStringIndex(result)
+		location := findUnescaped(flagGroupStartRegexp, result)
 		if len(location) > 0 {
 			result = o.removeGroup(result, location[0], location[1], false)
 		} else {
@@ -277,6 +283,17 @@ func (o *Operator) dontUseFlagsForMetaCharacters(input string) string {
 		}
 	}
 	return result
+}
+
+// findUnescaped returns the first match of pattern whose opening parenthesis
+// is not escaped, or nil.
+func findUnescaped(pattern *regexp.Regexp, input string) []int {
+	for _, location := range pattern.FindAllStringIndex(input, -1) {
+		if !utils.IsEscaped(input, location[0]) {
+			return location
+		}
+	}
+	return nil
 }
 
 // Remove groups like `...(?-s:...)...`.
